@@ -91,6 +91,7 @@ func genC16(r *Rng, tier string) []Case {
 	rd := r.Fork("dn")
 	types := []string{"CN", "OU", "DC", "DC", "DC", "O", "L", "dc", "DCX", "D", "C", "UID"}
 	valAlpha := []byte("abcDC=,\\+#;\"<> .xyz0-")
+	wideAlpha := []byte("aöıü%漢DC=,\\ .") // bytes of multi-byte characters (a slice of runes is not a slice of bytes), format verbs
 	dnsAlpha := []byte("abcdefxyzDCdcN0123-_") // labels may begin with the letters of an attribute type ("DC=dc01", "DC=CDC")
 	for i := 0; i < n; i++ {
 		k := rd.Intn(7)
@@ -105,6 +106,13 @@ func genC16(r *Rng, tier string) []Case {
 				}
 			} else {
 				v = rd.BytesFrom(rd.Intn(10), valAlpha)
+				if rd.Intn(3) == 0 {
+					v = nil // whole characters: a multi-byte one is one rune and several bytes
+					wr := []rune(string(wideAlpha))
+					for k := rd.Intn(8); k > 0; k-- {
+						v = append(v, []byte(string(wr[rd.Intn(len(wr))]))...)
+					}
+				}
 				if rd.Intn(4) == 0 {
 					v = append(v, []byte(",DC=evil")...)
 				}
